@@ -221,7 +221,11 @@ func applyHandle[S any](b handleBuilder[S], cs []Cond) {
 			}
 			b.HandleErrors(es...)
 		case "types":
-			b.HandleErrorTypes(TypeTarget(c.Type))
+			if c.Type == "" {
+				b.HandleErrorTypes() // a registration call with an empty argument list
+			} else {
+				b.HandleErrorTypes(TypeTarget(c.Type))
+			}
 		case "result":
 			b.HandleResult(c.Val)
 		case "if":
@@ -469,7 +473,12 @@ func (w *World) build(i int, in Inst) *Built {
 			fb.OnSuccess(att("OnSuccess"))
 		}
 		if on("OnFailure") {
-			fb.OnFailure(att("OnFailure"))
+			fb.OnFailure(func(e failsafe.ExecutionEvent[int]) {
+				rec.add(rec.Attempt(i, "OnFailure", e.ExecutionAttempt))
+				if f := cancelOf(e.Context()); in.FbCancelInListener && f != nil {
+					f()
+				}
+			})
 		}
 		if on("OnFallbackExecuted") {
 			fb.OnFallbackExecuted(func(e failsafe.ExecutionDoneEvent[int]) {
